@@ -272,6 +272,20 @@ def run(ctx):
                            f"b0_ = ndx.astype(w, ndx.{nd_}); a_ = ndx.astype(v, ndx.{nd_}); {write}; out = [b0_, ndx.astype(w, ndx.{nd_}) + 1, a_]",
                            f"a_ = ndx.astype(v, ndx.{nd_}); {write}; out = [w + ndx.asarray(np.ma.masked_array(np.zeros({sh!r}, dtype=np.{d}), mask=False)), ndx.astype(w, ndx.{nd_}) * 2, a_]"])
         mk_a = f"mk(v, np.arange(v.size).reshape(v.shape) == 0)"
+        if rnd.random() < 0.35:
+            # a nullable array cast to ANOTHER nullable dtype owns its mask too: clearing the null in the cast result
+            # (an item assignment of a plain value) must not un-null the source, and the other way round
+            od, onp = ("nfloat32", "float32") if d == "float64" else ("nfloat64", "float64")
+            if rnd.random() < 0.5:
+                form = f"a_ = ndx.astype(v, ndx.{nd_}); a_.null[{z}] = True; b_ = ndx.astype(a_, ndx.{od}); b_[{z}] = 5; out = [a_ + 0, b_]"
+                orc = f"u_ = v.astype(np.{onp}); u_[{z}] = 5; out = [{mk_a}, mk(u_, np.zeros(v.shape, bool))]"
+            else:
+                form = f"a_ = ndx.astype(v, ndx.{nd_}); b_ = ndx.astype(a_, ndx.{od}); b_.null[{z}] = True; out = [a_ + 0, b_]"
+                orc = f"out = [mk(v, np.zeros(v.shape, bool)), mk(v.astype(np.{onp}), np.arange(v.size).reshape(v.shape) == 0)]"
+            c = families.mkcase(f"NF-{i}", {"v": v}, form, orc, {"func": "mask-ownership-cast", "dtype": nd_, "dclass": family.dclass(nd_)}, rnd, (1e-6, 1e-6), symbolic=False, check_dtype=False)
+            c["lazy_subsets"] = []
+            fresh.append(c)
+            continue
         if form.startswith("b0_"):
             orc = f"out = [mk(w, np.zeros(w.shape, bool)), mk(w + 1, np.zeros(w.shape, bool)), {mk_a}]"
         elif "* 2" in form:
